@@ -3,6 +3,8 @@
  *        bit 2: caller-provided repair buffers are dirty (0xEE) instead of zeroed
  *        bit 4: every repair symbol is built twice
  *        bit 8: repair symbols are built in decreasing ESI order (Reed-Solomon only)
+ *        bit 16: after a first pass over all repair symbols the source symbols are CHANGED (every byte of source 0 xor 0x5A) and every
+ *                repair symbol is built again: the answer must be the codeword of the new sources
  * answer: R P<status> [H..] B<status digits> Y<all n symbols hex, '.' separated> RO<sources unchanged> SL<per repair slot: p provided / A allocated by the library / N still NULL> */
 #include <stdio.h>
 #include <stdlib.h>
@@ -49,6 +51,10 @@ int main(void)
 			else { tab[i] = malloc(L); memset(tab[i], (mode & 2) ? 0xEE : 0, L); slot[i] = 'p'; }
 		}
 		fprintf(out, " B");
+		if (mode & 16) {
+			for (i = 0; i < (UINT32)r; i++) fprintf(out, "%d", of_build_repair_symbol(e, tab, k + i));
+			for (j = 0; j < (UINT32)L; j++) { ((unsigned char *)tab[0])[j] ^= 0x5A; orig[0][j] ^= 0x5A; }
+		}
 		for (pass = 0; pass < ((mode & 4) ? 2 : 1); pass++)
 			for (i = 0; i < (UINT32)r; i++) { UINT32 esi = (mode & 8) ? n - 1 - i : k + i; fprintf(out, "%d", of_build_repair_symbol(e, tab, esi)); }
 		fprintf(out, " Y");
